@@ -118,8 +118,8 @@ pub fn spec_strategy(depth: u32) -> BoxedStrategy<Spec> {
 fn op_strategy(prop: &str) -> BoxedStrategy<(u8, u32, u32)> {
     let codes: Vec<(u32, u8)> = match prop {
         "C10" => vec![(3, 1), (10, 6), (10, 7), (1, 8), (1, 9), (1, 10), (1, 16), (1, 17), (1, 3)],
-        "C12" => vec![(5, 1), (2, 2), (3, 3), (1, 4), (4, 5), (2, 6), (2, 7), (4, 8), (2, 9), (2, 10), (4, 11), (4, 12), (4, 13), (1, 14), (1, 15), (1, 16), (1, 17), (1, 18)],
-        _ => vec![(6, 1), (5, 2), (4, 3), (2, 4), (5, 5), (2, 6), (2, 7), (3, 8), (2, 9), (2, 10), (1, 11), (1, 12), (1, 13), (1, 14), (1, 15), (1, 16), (1, 17), (2, 18)],
+        "C12" => vec![(5, 1), (2, 2), (3, 3), (1, 4), (4, 5), (2, 6), (2, 7), (4, 8), (2, 9), (2, 10), (4, 11), (4, 12), (4, 13), (1, 14), (1, 15), (1, 16), (1, 17), (1, 18), (3, 19)],
+        _ => vec![(6, 1), (5, 2), (4, 3), (2, 4), (5, 5), (2, 6), (2, 7), (3, 8), (2, 9), (2, 10), (1, 11), (1, 12), (1, 13), (1, 14), (1, 15), (1, 16), (1, 17), (2, 18), (2, 19)],
     };
     let ks: Vec<(u32, BoxedStrategy<u8>)> = codes.into_iter().map(|(w, c)| (w, Just(c).boxed())).collect();
     (proptest::strategy::Union::new_weighted(ks), 0u32..4096, 0u32..4096).boxed()
@@ -419,7 +419,7 @@ pub fn main_buf(args: &Args) -> i32 {
         "evaluations": col.evals, "nontrivial_distinct_this_worker": col.nontriv.len(),
         "exhaustive": exhaustive,
         "histogram": {"ops": ops, "leaf_kinds": kinds, "required_classes": classes, "typed_reads": getters, "expected_panics": st.panics,
-            "structural_walks": st.struct_walks, "vectored_slices_seen": st.vectored_slices, "cases_ended_by_another_property's_violation": col.foreign},
+            "structural_walks": st.struct_walks, "vectored_slices_seen": st.vectored_slices, "direct_inner_access(get_mut/first_mut/last_mut)": st.inner_direct, "cases_ended_by_another_property's_violation": col.foreign},
         "samples": col.samples, "violations": col.viols,
     });
     println!("{}", out);
